@@ -3795,26 +3795,24 @@ impl LineBuf {
 					let lines = (start_line..=end_line).rev();
 					for line_no in lines {
 						let Some((start,end)) = self.line_bounds(line_no) else { continue };
-						let line = self.slice(start..end).unwrap();
+						let line = self.slice(start..end).unwrap_or_default();
+						// Match the line without its terminator; positions are graphemes within the line
+						let line = line.strip_suffix('\n').unwrap_or(line);
 						let global = flags.contains(SubFlags::GLOBAL);
 						if global {
 							let line_matches = regex
 								.find_iter(line)
-								.map(|mat| (mat.start(),mat.end()))
+								.map(|mat| (line[..mat.start()].graphemes(true).count(),line[..mat.end()].graphemes(true).count()))
 								.collect::<Vec<_>>()
 								.into_iter()
 								.rev();
 							for (mat_start,mat_end) in line_matches {
-								let mat_start = self.find_index_for_byte_pos(mat_start).unwrap();
-								let mat_end = self.find_index_for_byte_pos(mat_end).unwrap();
 								let real_start = start + mat_start;
 								let real_end = start + mat_end;
 								self.replace_range(real_start,real_end, new);
 							}
 						} else {
-							let Some((mat_start,mat_end)) = regex.find(line).map(|mat| (mat.start(),mat.end())) else { continue };
-							let mat_start = self.find_index_for_byte_pos(mat_start).unwrap();
-							let mat_end = self.find_index_for_byte_pos(mat_end).unwrap();
+							let Some((mat_start,mat_end)) = regex.find(line).map(|mat| (line[..mat.start()].graphemes(true).count(),line[..mat.end()].graphemes(true).count())) else { continue };
 							let real_start = start + mat_start;
 							let real_end = start + mat_end;
 							self.replace_range(real_start,real_end, new);
@@ -3837,25 +3835,23 @@ impl LineBuf {
 						for line_no in lines {
 							let Some((start,end)) = self.line_bounds(line_no) else { continue };
 							let line = self.slice(start..end).unwrap_or_default();
+							// Match the line without its terminator; positions are graphemes within the line
+							let line = line.strip_suffix('\n').unwrap_or(line);
 							let global = flags.contains(SubFlags::GLOBAL);
 							if global {
 								let line_matches = regex
 									.find_iter(line)
-									.map(|mat| (mat.start(),mat.end()))
+									.map(|mat| (line[..mat.start()].graphemes(true).count(),line[..mat.end()].graphemes(true).count()))
 									.collect::<Vec<_>>()
 									.into_iter()
 									.rev();
 								for (mat_start,mat_end) in line_matches {
-									let mat_start = self.find_index_for_byte_pos(mat_start).unwrap();
-									let mat_end = self.find_index_for_byte_pos(mat_end).unwrap();
 									let real_start = start + mat_start;
 									let real_end = start + mat_end;
 									self.replace_range(real_start,real_end, &new);
 								}
 							} else {
-								let Some((mat_start,mat_end)) = regex.find(line).map(|mat| (mat.start(),mat.end())) else { continue };
-								let mat_start = self.find_index_for_byte_pos(mat_start).unwrap();
-								let mat_end = self.find_index_for_byte_pos(mat_end).unwrap();
+								let Some((mat_start,mat_end)) = regex.find(line).map(|mat| (line[..mat.start()].graphemes(true).count(),line[..mat.end()].graphemes(true).count())) else { continue };
 								let real_start = start + mat_start;
 								let real_end = start + mat_end;
 								self.replace_range(real_start,real_end, &new);
